@@ -323,21 +323,31 @@ func r033(c *Ctx, r *R) {
 	// isReplicationFactorValid: shape of the validity predicate
 	v := c.fn(r, "", "isReplicationFactorValid")
 	if v != nil {
-		// every comparison guards an error return; count the clauses
-		clauses := 0
-		for _, b := range v.Blocks {
-			if _, ok := b.Instrs[len(b.Instrs)-1].(*ssa.If); ok {
-				clauses++
+		// the predicate is evaluated on the SSA over a grid of factor
+		// pairs and compared with what the property says is valid: both -1
+		// (everywhere), or 1 <= min <= max. 0 means "unset" and must have
+		// been replaced by a default before; below -1 is meaningless.
+		// (Evaluation, not shape: if-chains, a switch or merged conditions
+		// are all the same function.)
+		bad := ""
+		n := 0
+		for mn := int64(-3); mn <= 4; mn++ {
+			for mx := int64(-3); mx <= 4; mx++ {
+				res, _, _ := ssaEval(v, bindParams(v, map[int]constant.Value{0: constant.MakeInt64(mn), 1: constant.MakeInt64(mx)}))
+				if res == nil {
+					bad += fmt.Sprintf(" (%d,%d): not evaluable", mn, mx)
+					continue
+				}
+				n++
+				accepted := isNilConst(res)
+				want := (mn == -1 && mx == -1) || (mn >= 1 && mx >= mn)
+				if accepted != want {
+					bad += fmt.Sprintf(" (%d,%d): accepted=%v, should be %v;", mn, mx, accepted, want)
+				}
 			}
 		}
-		nilRets := 0
-		for _, ret := range returnsOf(v) {
-			if isNilConst(retResult(ret, 0)) {
-				nilRets++
-				r.Check(len(guardsOf(ret.Block())) >= 5, "validity:nil-after-all-tests", ret.Pos(), "nil only after all validity tests failed to fire", "isReplicationFactorValid returns nil before all its tests")
-			}
-		}
-		r.Check(clauses >= 9 && nilRets == 1, "validity:clauses", v.Pos(), fmt.Sprintf("%d comparison branches, one success exit", clauses), fmt.Sprintf("isReplicationFactorValid lost a clause (%d branches, %d success exits; pinned: 10 and 1)", clauses, nilRets))
+		r.Check(bad == "" && n == 64, "validity:nil-after-all-tests", v.Pos(), fmt.Sprintf("isReplicationFactorValid accepts exactly the valid pairs on all %d grid points in [-3,4]x[-3,4]", n), "isReplicationFactorValid accepts an invalid pair or refuses a valid one:"+bad)
+		r.Check(bad == "" && n == 64, "validity:clauses", v.Pos(), "no clause of the validity predicate is missing (grid evaluation)", "isReplicationFactorValid lost or gained a clause:"+bad)
 	}
 }
 
